@@ -86,11 +86,17 @@ pub fn build(t: &Value) -> BoxSource {
       if let Some(r) = m["sourceRoot"].as_str() {
         sm.set_source_root(Some(r.to_string()));
       }
+      if let Some(r) = m["debugId"].as_str() {
+        sm.set_debug_id(Some(r.to_string()));
+      }
       let inner = if t.get("inner_map").map(|x| !x.is_null()).unwrap_or(false) {
         let im = &t["inner_map"];
         let mut ism = SourceMap::new(im["mappings"].as_str().unwrap().to_string(), strs(&im["sources"]), strs(&im["sourcesContent"]), strs(&im["names"]));
         if let Some(r) = im["sourceRoot"].as_str() {
           ism.set_source_root(Some(r.to_string()));
+        }
+        if let Some(r) = im["debugId"].as_str() {
+          ism.set_debug_id(Some(r.to_string()));
         }
         Some(ism)
       } else {
@@ -146,6 +152,7 @@ pub fn map_json(m: Option<SourceMap>) -> Value {
     None => Value::Null,
     Some(m) => json!({
       "sourceRoot": m.source_root(),
+      "debugId": m.get_debug_id(),
       "mappings": m.mappings(),
       "sources": m.sources(),
       "sourcesContent": m.sources_content(),
